@@ -255,6 +255,7 @@ def msg_class(res) -> str:
     """Short, value-free class of a rejection: exception type + message skeleton."""
     first = (res.get("msg") or "").strip().splitlines()[0:1]
     text = first[0] if first else ""
+    text = re.sub(r"c11design_[0-9a-f]+", "MODULE", text)  # generated module names are not part of the class
     text = _QUOTED.sub("'*'", text)
     text = _NUM.sub("N", text)
     text = re.sub(r"\s+", " ", text).strip()
